@@ -255,6 +255,35 @@ def case_inbreeding(col, p):
     col.distinct('nontrivial', ('inbreeding', ns, G, ploidys, p['grid']))
 
 
+def bbc_exact(nind, ploidy, a, b):
+    """distribution of the number of derived alleles in nind individuals of the given ploidy: nind-fold convolution of the beta-binomial"""
+    from scipy.special import betaln
+    pm = np.array([math.comb(ploidy, k) * math.exp(betaln(k + a, ploidy - k + b) - betaln(a, b)) for k in range(ploidy + 1)])
+    d = np.array([1.0])
+    for _ in range(nind):
+        d = np.convolve(d, pm)
+    return d
+
+
+def case_bbc_history(col, p):
+    """BetaBinomConvolution for a SEQUENCE of (individuals, ploidy) pairs in one process (the integer partitions behind it are memoised):
+    every call must give the exact convolution whatever was evaluated before"""
+    from dadi import Numerics
+    n = 0
+    for seq in p['sequences']:
+        for k, (nind, ploidy) in enumerate(seq):
+            for a, b in ((1.0, 50.0), (0.3, 0.7)):
+                got = np.array([Numerics.BetaBinomConvolution(i, nind, a, b, ploidy=ploidy) for i in range(nind * ploidy + 1)])
+                col.tick(transitions=len(got))
+                n += 1
+                ex = bbc_exact(nind, ploidy, a, b)
+                if not np.abs(got - ex).max() <= 1e-12:
+                    col.violation('C05:BetaBinomConvolution:result_depends_on_history', dict(p, sequences=[seq], position=k, alpha=a, beta=b),
+                                  {'maxerr': float(np.abs(got - ex).max()), 'sum': float(got.sum())})
+    col.tick(states=n, traces=n)
+    col.distinct('nontrivial', ('bbc_history', len(p['sequences']), repr(p['sequences'][0])))
+
+
 def case_bbc(col, p):
     """BetaBinomConvolution: a probability distribution over i = 0..n*ploidy for every (alpha, beta) of the lattice; binomial limit"""
     from dadi import Numerics
@@ -265,6 +294,10 @@ def case_bbc(col, p):
         probs = [Numerics.BetaBinomConvolution(i, nind, a, b, ploidy=ploidy) for i in range(nind * ploidy + 1)]
         col.tick(transitions=len(probs))
         n += 1
+        if 1e-3 <= a <= 50.0 and 1e-3 <= b <= 50.0:
+            ex0 = bbc_exact(nind, ploidy, a, b)
+            if not np.abs(np.array(probs) - ex0).max() <= 1e-12:
+                col.violation('C05:BetaBinomConvolution:value', dict(p, alpha=a, beta=b), {'maxerr': float(np.abs(np.array(probs) - ex0).max())})
         s = sum(probs)
         if not (all(q >= 0 for q in probs) and abs(s - 1.0) <= 1e-10 + 3e-14 * max(a, b)):
             col.violation('C05:BetaBinomConvolution:not_a_distribution', dict(p, alpha=a, beta=b), {'sum': s, 'min': min(probs)})
@@ -371,7 +404,7 @@ def case_history(col, p):
     col.distinct('nontrivial', ('history',))
 
 
-CASES = {'history': case_history, 'analytic': case_analytic, 'direct': case_direct, 'admix': case_admix, 'inbreeding': case_inbreeding, 'bbc': case_bbc,
+CASES = {'history': case_history, 'bbc_history': case_bbc_history, 'analytic': case_analytic, 'direct': case_direct, 'admix': case_admix, 'inbreeding': case_inbreeding, 'bbc': case_bbc,
          'closure': case_closure, 'ladder': case_ladder}
 
 
@@ -455,6 +488,10 @@ def run(ctx):
     for pls in ((4, 2, 2), (2, 4, 2), (2, 2, 4)):
         cases.append({'kind': 'inbreeding', 'ns': (4, 4, 4), 'G': 3, 'grid': 'E', 'ploidy': pls, 'Fs': [0.3, (0.2, 0.4, 0.6)], 'seed': seed})
     cases.append({'kind': 'history'})
+    fam = [(2, 2), (2, 4), (2, 6), (3, 2), (3, 4), (4, 2), (1, 8)]
+    seqs = [list(x) for x in itertools.permutations(fam, 2)] if ctx.quick else [list(x) for x in itertools.permutations(fam, 3)]
+    for lo in range(0, len(seqs), 14):
+        cases.append({'kind': 'bbc_history', 'sequences': seqs[lo:lo + 14]})
     for nind, pl in ((1, 2), (2, 2), (3, 2), (2, 4), (1, 8), (2, 6)):
         cases.append({'kind': 'bbc', 'nind': nind, 'ploidy': pl})
     # closure identities
